@@ -297,6 +297,14 @@ def fam_ewise(rng, n, tier, mode="exact", grads=False):
                 op = rng.choice(EW_OPS)
                 cases.append(Case(ewise_case(rng, a, b, mode, [op]), ("i", op, tuple(a), tuple(b)),
                                   ["incompatible", op], mode))
+    # high ranks (any fixed-size index buffer in the walk shows here): mostly unit dimensions
+    for (a, b) in (([2, 1, 1, 1, 1, 1, 1, 1, 3], [3]), ([3], [2, 1, 1, 1, 1, 1, 1, 1, 3]), ([2, 1, 1, 1, 1, 1, 1, 1, 1, 2], [1, 2, 1, 1, 1, 1, 1, 1, 1, 1]),
+                   ([1, 2, 1, 1, 1, 1, 1, 1, 2], [2, 1, 1, 1, 1, 1, 1, 1, 1]), ([2, 1, 2, 1, 2, 1, 2, 1, 2], [2, 2, 2, 2, 2, 2, 2, 2, 2]),
+                   ([1, 1, 1, 1, 1, 1, 1, 1, 1, 1, 2], [2, 1, 1, 1, 1, 1, 1, 1, 1, 1, 1])):
+        ops = [rng.choice(["mul", "add", "sub"])] if grads else ["add", "mul", "sub"]
+        if compat(a, b) is not None:
+            cases.append(Case(ewise_case(rng, a, b, mode, ops, grads, 1), ("hr", tuple(ops), tuple(a), tuple(b), grads),
+                              ["compat", "rank%d" % max(len(a), len(b))], mode, nontrivial=True))
     for _ in range(n):
         if rng.random() < 0.8:
             a, b = rand_compat_pair(rng, 5 if tier == "thorough" else 4, 5)
@@ -929,6 +937,28 @@ def fam_customlog(rng, n, tier, mode="exact"):
                     L += ["backward r -", "log", "grad l0"] + ["grad w%d" % i for i in range(len(order))]
                     L += ["probe n"] + ["probe %s" % c for c in cons]
                     cases.append(Case(L, ("mixed", order, perm), ["mixed-tracking", "t%du%d" % (nt, nu)], mode))
+    # handles of one logging node obtained in different ways - a clone taken while tracking was paused and
+    # re-enabled afterwards, a clone of a clone, the original - all consumed in one graph: one node, one invocation
+    for how in ("stop-clone-start", "clone-stop-start", "untracked-clone-tracked", "clone-of-clone"):
+        for nuse in (2, 3):
+            for kind in (1, 0):
+                L = ["new l0 2 1,2", "tracked l0", "cop 2 n l0"]
+                if how == "stop-clone-start":
+                    L += ["stop n", "clone n2 n", "start n", "start n2"]
+                elif how == "clone-stop-start":
+                    L += ["clone n2 n", "stop n2", "start n2"]
+                elif how == "untracked-clone-tracked":
+                    L += ["untracked n", "clone n2 n", "tracked n", "tracked n2"]
+                else:
+                    L += ["clone n1 n", "clone n2 n1", "drop n1"]
+                hs = ["n", "n2", "n"][:nuse]
+                cons = []
+                for i, h in enumerate(hs):
+                    L += ["new w%d 2 %d,%d" % (i, 10 ** (i + 1), 2 * 10 ** (i + 1)), "tracked w%d" % i]
+                    L.append("cop 1 k%d %s w%d" % (i, h, i) if kind == 1 else "cop 0 k%d %s,w%d" % (i, h, i))
+                    cons.append("k%d" % i)
+                L += ["cop 0 r %s" % ",".join(cons), "backward r -", "log", "grad l0", "probe n", "probe n2"]
+                cases.append(Case(L, ("clonelog", how, nuse, kind), ["clone-handles", how], mode))
     for _ in range(n):
         p = Prog(rng, mode, maxsize=2, maxrank=2)
         s = rand_shape(rng, 2, 2)
@@ -1069,6 +1099,31 @@ def fam_release(rng, n, tier, mode="exact"):
                 for nm in sorted(leaves):
                     L += ["probe %s" % nm, "own %s" % nm]
                 cases.append(Case(L, ("rel1", name, tracked, bw), ["release", "single", name], mode))
+    # the optimizer replaces parameters by fresh arrays: a handle kept on an old parameter is its only owner afterwards
+    for npar in (1, 2, 3):
+        for src in ("setgrad", "pass"):
+            L = []
+            names_ = ["p%d" % i for i in range(npar)]
+            for nm in names_:
+                L += ["new %s 2 %s" % (nm, vals_s(gen_vals(rng, 2, mode), mode)), "tracked %s" % nm]
+            if src == "setgrad":
+                for nm in names_:
+                    L += ["new g%s 2 %s" % (nm, vals_s(gen_vals(rng, 2, mode), mode)), "setgrad %s g%s" % (nm, nm)]
+            else:
+                L.append("mul acc p0 p0")
+                for nm in names_[1:]:
+                    L += ["mul t%s %s %s" % (nm, nm, nm), "add acc acc t%s" % nm, "drop t%s" % nm]
+                L += ["backward acc -", "drop acc"]
+            for nm in names_:
+                L.append("move old%s %s" % (nm, nm))      # the caller keeps the old parameter under another name
+                L.append("clone %s old%s" % (nm, nm))
+            lr = sc(Fraction(1, 2) if mode == "exact" else 0.25, mode)
+            L.append("gdupdate %s %s" % (lr, ",".join(names_)))
+            for nm in names_:
+                L += ["probe old%s" % nm, "own old%s" % nm]
+            # a later pass on the new parameters leaves nothing on (and needs nothing of) the old ones
+            L += ["mul again p0 p0", "backward again -", "drop again", "probe p0"]
+            cases.append(Case(L, ("relparam", npar, src), ["release", "optimizer", "params%d" % npar], mode))
     # layers hold their parameters, nothing else: the input is released once the outputs are dropped
     for lay in (["dense L0 2 2 none %s %s" % (vals_s([1, 2, 3, 4], mode), vals_s([1, 1], mode))],
                 ["convl L0 1 1 2 2 1 1 none %s %s" % (vals_s([1, 2, 3, 4], mode), vals_s([1], mode))]):
@@ -1366,6 +1421,29 @@ def fam_transparent(rng, n, tier, mode="exact"):
                 for v in ("a", "b", "a1", "r", "s"):
                     L += ["same %s z%s" % (v, v), "samegrad %s z%s" % (v, v)]
                 cases.append(Case(L, ("trsys", how, hb, opn), ["systematic", "clone", how], mode, nontrivial=(how != "plain")))
+    for how in ("untracked", "tracked", "stop", "start", "drop", "clone-only"):
+        for leafhow in ("tracked", "start"):
+            L = ["new a 3 %s" % vals_s(gen_vals(rng, 3, mode), mode), "%s a" % leafhow, "mul r a a", "backward r -", "grad a",
+                 "clone c a"]
+            if how == "drop":
+                L.append("drop c")
+            elif how != "clone-only":
+                L.append("%s c" % how)
+            L += ["grad a", "flags a", "mul r2 a a", "backward r2 -", "grad a"]
+            if how not in ("drop",):
+                L += ["grad c", "samegrad a c"]
+            cases.append(Case(L, ("trflagclone", how, leafhow), ["systematic", "flag-on-clone", how], mode))
+            # the same two passes without any clone: gradients must coincide with the program above
+            v3 = vals_s(gen_vals(rng, 3, mode), mode)
+            T = ["new a 3 %s" % v3, "%s a" % leafhow, "mul r a a", "backward r -", "clone c a"]
+            if how == "drop":
+                T.append("drop c")
+            elif how != "clone-only":
+                T.append("%s c" % how)
+            T += ["mul r2 a a", "backward r2 -",
+                  "new za 3 %s" % v3, "%s za" % leafhow, "mul zr za za", "backward zr -", "mul zr2 za za", "backward zr2 -",
+                  "samegrad a za", "same r2 zr2"]
+            cases.append(Case(T, ("trflagclone-twin", how, leafhow), ["systematic", "flag-on-clone", "twin", how], mode))
     for i in range(n):
         p = build_program(rng, mode, rng.randint(2, 10 if tier == "quick" else 16), flagops=(rng.random() < 0.6))
         root = rng.choice(sorted(p.inter & set(p.shape)) or p.names())
@@ -1450,7 +1528,12 @@ def fam_transparent(rng, n, tier, mode="exact"):
         lf = sorted(p.leaf & set(p.shape))
         if lf:
             v = rng.choice(lf)
-            L += ["clone zz1 %s" % v, "clone zz2 zz1", "samegrad zz2 %s" % v, "drop %s" % v, "grad zz1", "samegrad zz1 zz2"]
+            L += ["clone zz1 %s" % v, "clone zz2 zz1", "samegrad zz2 %s" % v]
+            # re-flagging or dropping a clone does not touch what the others see: flags are per handle,
+            # the gradient belongs to the array
+            how = rng.choice(["untracked", "stop", "tracked", "start", "drop"])
+            L += ["clone zz3 zz1", ("drop zz3" if how == "drop" else "%s zz3" % how), "grad %s" % v, "samegrad zz1 %s" % v, "samegrad zz2 %s" % v]
+            L += ["drop %s" % v, "grad zz1", "samegrad zz1 zz2"]
         cases.append(Case(L, ("tr", i, tuple(sorted(kinds)), dag_key(p)), sorted(kinds) + ["seeded" if seeded else "ones"], mode,
                           nontrivial=bool(kinds)))
     return cases
@@ -1461,6 +1544,28 @@ def fam_linear(rng, n, tier, mode="exact"):
     alpha*g(s1) + beta*g(s2) with g(alpha*s1 + beta*s2) cell by cell), and a fourth pair comparing an
     omitted seed with explicit ones"""
     out = []
+    # roots without an operation of their own: a tracked leaf, the sum(0) alias of one, a reshaped view, a clone
+    for rootkind in ("leaf", "sum0", "view", "clone", "started-leaf"):
+        for dims in ([3], [2, 3]):
+            cnt = prod(dims)
+            s1, s2 = ints(rng, cnt, -3, 3), ints(rng, cnt, -3, 3)
+            al, be = rng.choice([2, -1, 3]), rng.choice([1, -2])
+            s3 = [al * x + be * y for x, y in zip(s1, s2)]
+            L = []
+            vals = vals_s(gen_vals(rng, cnt, mode), mode)
+            for pre, sv in (("a_", s1), ("b_", s2), ("c_", s3)):
+                L += ["new %sw %s %s" % (pre, dims_s(dims), vals), ("start %sw" if rootkind == "started-leaf" else "tracked %sw") % pre]
+                if rootkind == "sum0":
+                    L.append("sum %sr %sw 0" % (pre, pre))
+                elif rootkind == "view":
+                    L.append("reshape %sr %sw %s" % (pre, pre, dims_s([cnt])))
+                elif rootkind == "clone":
+                    L.append("clone %sr %sw" % (pre, pre))
+                root_ = "w" if rootkind in ("leaf", "started-leaf") else "r"
+                sd = [cnt] if rootkind == "view" else dims
+                L += ["new %sseed %s %s" % (pre, dims_s(sd), vals_s(sv, mode)), "backward %s%s %sseed" % (pre, root_, pre), "grad %sw" % pre]
+            L.append("lin c_w %s a_w %s b_w" % (sc(al, mode), sc(be, mode)))
+            out.append(Case(L, ("linroot", rootkind, tuple(dims)), ["root-" + rootkind], mode))
     for i in range(n):
         p = build_program(rng, mode, rng.randint(1, 9 if tier == "quick" else 14))
         root = rng.choice(sorted(p.inter & set(p.shape)) or p.names())
@@ -1713,6 +1818,29 @@ def fam_alias(rng, n, tier, mode="exact"):
     cells, seeds passed as clones (so a gradient cell shares the seed's buffer) — followed by further
     passes and updates; the harness re-reads every live handle after every command."""
     cases = []
+    # a parameter stepped by the optimizer while other handles of its buffer are alive: a view taken before
+    # it was tracked, a view taken afterwards, a clone, a result computed from it - none of them may change
+    for when in ("view-before", "view-after", "clone", "result", "none"):
+        for src in ("setgrad", "pass"):
+            for dims in ([4], [2, 2]):
+                L = ["new p %s %s" % (dims_s(dims), vals_s(gen_vals(rng, 4, mode), mode))]
+                if when == "view-before":
+                    L.append("reshape v p 4,1")
+                L.append("tracked p")
+                if when == "view-after":
+                    L.append("reshape v p 1,4")
+                if when == "clone":
+                    L.append("clone v p")
+                if when == "result":
+                    L.append("scale v p %s" % sc(3, mode))
+                if src == "setgrad":
+                    L += ["new g %s %s" % (dims_s(dims), vals_s(gen_vals(rng, 4, mode), mode)), "setgrad p g"]
+                else:
+                    L += ["mul r p p", "backward r -", "drop r"]
+                lr = sc(Fraction(1, 2) if mode == "exact" else 0.25, mode)
+                L += ["gdupdate %s p" % lr, "show p"] + (["show v"] if when != "none" else [])
+                L += ["gdupdate %s p" % lr, "show p"] + (["show v"] if when != "none" else [])
+                cases.append(Case(L, ("paramview", when, src, tuple(dims)), ["update", when], mode))
     for i in range(n):
         p = Prog(rng, mode)
         leaves = [p.new_leaf(tracked=True) for _ in range(rng.randint(1, 3))]
@@ -1949,6 +2077,26 @@ def fam_sizes(rng, n, tier, mode="exact", part="all", grads=False):
     small = lambda k: [rng.randint(-3, 3) for _ in range(k)] if mode == "exact" else floats(rng, k, -2, 2)
     pos = lambda k: [rng.randint(1, 3) for _ in range(k)] if mode == "exact" else posfloats(rng, k)
     lens = AWKWARD if tier == "thorough" else [5, 7, 9, 13, 16, 17, 20, 21, 23, 28, 33, 65]
+    # long leading dimensions (pairwise / blocked reductions of a broadcast operand's gradient, long sums)
+    for L in ([127, 129, 255, 257, 258] if tier != "thorough" else [127, 128, 129, 255, 256, 257, 258, 511, 513, 1030]):
+        for (da, db) in (([L, 2], [2]), ([2], [L, 2]), ([L, 1, 2], [1, 2]), ([L, 2], [1, 2]), ([L, 3], [L, 1])):
+            if part in ("all", "ewise"):
+                P = ["new a %s %s" % (dims_s(da), vals_s(small(prod(da)), mode)), "new b %s %s" % (dims_s(db), vals_s(pos(prod(db)), mode))]
+                if grads:
+                    P += ["tracked a", "tracked b"]
+                P.append("%s r a b" % rng.choice(["add", "mul"]))
+                if grads:
+                    P += ["backward r -", "grad a", "grad b"]
+                cases.append(Case(P, ("sz-long", L, tuple(da), tuple(db), grads), ["long", "len%d" % L], mode))
+        if part in ("all", "reduce"):
+            for dims, k in (([L], 1), ([L, 2], 2), ([2, L], 1)):
+                P = ["new a %s %s" % (dims_s(dims), vals_s(small(prod(dims)), mode))]
+                if grads:
+                    P.append("tracked a")
+                P += ["sum r a %d" % k, "sumall a"]
+                if grads:
+                    P += ["backward r -", "grad a"]
+                cases.append(Case(P, ("sz-longsum", L, tuple(dims), k, grads), ["long", "sum", "len%d" % L], mode))
     for L in lens:
         if part in ("all", "reduce"):
             for dims, k in (([L], 1), ([2, L], 1), ([2, L], 2), ([L, 3], 2), ([L, 3], 1), ([2, 2, L], 3)):
